@@ -17,12 +17,13 @@ package dagsync
 //@   property C14
 //@   requires h != nil && h.subscriber != nil && h.subscriber.inEvents != nil && !closed(h.subscriber.inEvents)
 //@   mayblock send:inEvents
+//@   modifies h.subscriber.latestSyncHandler
 //@   ensures-local count("call:setLatestSync") == 1 && count("send:inEvents") == 1 && before("call:setLatestSync", "send:inEvents")
 //@   ensures-local evarg("send:inEvents", 1) == str(c.str) && evarg("send:inEvents", 2) == str(h.peerID) && evarg("send:inEvents", 3) == count
 //@   at call setLatestSync#1: assert arg1 == h.peerID && arg2 == c
 
 // Close runs the shutdown sequence exactly once.
-//@ spec func subOK(s val) bool = s != nil && s.closing != nil && s.inEvents != nil && s.addEventChan != nil && s.rmEventChan != nil && s.httpPeerstore != nil && s.handlers != nil && !closed(s.addEventChan) && !closed(s.rmEventChan) && s.closing != s.inEvents && (closed(s.inEvents) ==> closed(s.closing)) && (s.receiver != nil ==> s.watchDone != nil && recvOK(s.receiver) && s.receiver.outChan != s.closing && s.receiver.done != s.closing && s.receiver.done != s.inEvents && (s.receiver.cancelWatch != nil ==> s.receiver.watchDone != nil) && (s.receiver.cancelPubsub != nil ==> s.receiver.topic != nil))
+//@ spec func subOK(s val) bool = s != nil && s.closing != nil && s.inEvents != nil && s.addEventChan != nil && s.rmEventChan != nil && s.httpPeerstore != nil && s.handlers != nil && all(k, has(s.handlers, k) ==> s.handlers[k] != nil && s.handlers[k].subscriber == s && str(s.handlers[k].peerID) == k && !held(s.handlers[k].syncMutex) && !held(s.handlers[k].asyncMutex)) && !closed(s.addEventChan) && !closed(s.rmEventChan) && s.closing != s.inEvents && (closed(s.inEvents) ==> closed(s.closing)) && s.scopedBlockHook != nil && s.scopedBlockHookMutex != nil && (s.receiver != nil ==> s.watchDone != nil && recvOK(s.receiver) && s.receiver.outChan != s.closing && s.receiver.done != s.closing && s.receiver.done != s.inEvents && (s.receiver.cancelWatch != nil ==> s.receiver.watchDone != nil) && (s.receiver.cancelPubsub != nil ==> s.receiver.topic != nil))
 
 //@ func (*Subscriber).Close
 //@   property C15
@@ -59,9 +60,10 @@ package dagsync
 //@ spec func chansOpen(l val) bool = forall(a, 0, len(l), l[a] != nil && !closed(l[a]))
 //@ spec func chansNot(l val, c val) bool = forall(a, 0, len(l), l[a] != c)
 //@ spec func chansDistinct(l val) bool = forall(a, 0, len(l), forall(b, 0, a, l[a] != l[b]))
+//@ spec func subChans(s val) bool = s != nil && s.inEvents != nil && s.addEventChan != nil && s.rmEventChan != nil && !closed(s.addEventChan) && !closed(s.rmEventChan)
 //@ func (*Subscriber).distributeEvents
 //@   property C14
-//@   requires subOK(s)
+//@   requires subChans(s)
 //@   mayblock send:ch
 //@   at recv addEventChan: assume v != nil && !closed(v) && v != s.inEvents && forall(a, 0, len(outEventsChans), outEventsChans[a] != v)
 //@   loop 1: iteration ghost n0 := len(outEventsChans)
@@ -75,12 +77,12 @@ package dagsync
 //@   loop 1: iteration ensures itercount("recv:rmEventChan") == 1 && removed ==> chansNot(outEventsChans, iterarg("recv:rmEventChan", 1))
 //@   loop 1: iteration ensures itercount("recv:rmEventChan") == 0 ==> !removed
 //@   loop 3: iteration ensures itercount("send:ch") == 1 && iterarg("send:ch", 0) == chanRef(outEventsChans[rangeindex]) && iterarg("send:ch", 1) == str(event.Cid.str) && iterarg("send:ch", 2) == str(event.PeerID) && iterarg("send:ch", 3) == event.Count
-//@   loop 1: invariant subOK(s) && chansNot(outEventsChans, s.inEvents)
+//@   loop 1: invariant subChans(s) && chansNot(outEventsChans, s.inEvents)
 //@   loop 1: invariant chansOpen(outEventsChans)
 //@   loop 1: invariant chansDistinct(outEventsChans)
 //@   loop 2: invariant chansNot(outEventsChans, s.inEvents) && chansDistinct(outEventsChans) && rangeindex < len(outEventsChans) && forall(a, 0, len(outEventsChans), outEventsChans[a] != nil) && forall(a, 0, rangeindex + 1, closed(outEventsChans[a])) && forall(a, rangeindex + 1, len(outEventsChans), !closed(outEventsChans[a]))
-//@   loop 3: invariant subOK(s) && chansNot(outEventsChans, s.inEvents) && chansOpen(outEventsChans) && chansDistinct(outEventsChans) && rangeindex < len(outEventsChans)
-//@   loop 4: invariant subOK(s) && chansNot(outEventsChans, s.inEvents) && chansOpen(outEventsChans) && chansDistinct(outEventsChans) && rangeindex < len(outEventsChans) && forall(a, 0, rangeindex + 1, outEventsChans[a] != ch) && !removed && len(outEventsChans) == n0
+//@   loop 3: invariant subChans(s) && chansNot(outEventsChans, s.inEvents) && chansOpen(outEventsChans) && chansDistinct(outEventsChans) && rangeindex < len(outEventsChans)
+//@   loop 4: invariant subChans(s) && chansNot(outEventsChans, s.inEvents) && chansOpen(outEventsChans) && chansDistinct(outEventsChans) && rangeindex < len(outEventsChans) && forall(a, 0, rangeindex + 1, outEventsChans[a] != ch) && !removed && len(outEventsChans) == n0
 
 // ---------------------------------------------------------------------------
 // C01 (decision tables), C04 (failure changes nothing), C15 (explicit-sync protocol), C03 (no sync after a rejected head)
@@ -105,11 +107,15 @@ package dagsync
 //@ func (*handler).handle
 //@   property C04 C08 C01
 //@   requires h != nil && h.subscriber != nil && syncer != nil && !held(h.syncMutex)
+//@   requires h.subscriber.scopedBlockHook != nil && h.subscriber.scopedBlockHookMutex != nil && !held(h.subscriber.scopedBlockHookMutex)
+//@   modifies mapof(h.subscriber.scopedBlockHook)
 //@   ensures result1 != nil ==> result0 == 0
+//@   loop 1: invariant segSync != nil && segSync.nextSyncCid != nil && held(h.syncMutex) && !held(h.subscriber.scopedBlockHookMutex) && h.subscriber.scopedBlockHook != nil
 
 //@ func (*handler).makeSyncer
 //@   nobody
 //@   requires h != nil && h.subscriber != nil
+//@   modifies h.syncer
 //@   ensures-assumed result2 == nil ==> result0 != nil && (doUpdate ==> result1 != nil)
 //@   ensures-assumed result2 != nil ==> result0 == nil
 
@@ -117,14 +123,29 @@ package dagsync
 //@   property C08
 //@   requires subOK(s) && !held(s.handlersMutex)
 //@   modifies mapof(s.handlers), objects(handler)
-//@   ensures result != nil && result.subscriber == s && result.peerID == peerID
+//@   ensures result != nil && result.subscriber == s && result.peerID == peerID && !held(result.syncMutex) && !held(result.asyncMutex)
+//@   ensures subOK(s)
 
 //@ func (*Subscriber).GetLatestSync
 //@   nobody
 //@   pure
 
+// The publisher identity is non-empty on success (it becomes the syncer's peer ID: C03).
+//@ func removeIDFromAddrs
+//@   property C03
+//@   modifies elems(peerInfo.Addrs)
+//@   ensures result1 == nil ==> str(result0.ID) != str("")
+//@   ensures str(peerInfo.ID) != str("") ==> result0.ID == peerInfo.ID
+//@   loop 1: invariant rangeindex < len(peerInfo.Addrs) && suffix(peerInfo.Addrs[0:0], old(peerInfo.Addrs)[0:0], 0) && len(peerInfo.Addrs) == len(old(peerInfo.Addrs)) && (str(old(peerInfo.ID)) != str("") ==> peerInfo.ID == old(peerInfo.ID))
+
 // Selector construction is ipld-prime territory (dependency); used through its arguments only.
 //@ func ExploreRecursiveWithStopNode
+//@   nobody
+//@   pure
+//@ func getRecursionLimit
+//@   nobody
+//@   pure
+//@ func withRecursionLimit
 //@   nobody
 //@   pure
 
@@ -141,7 +162,8 @@ package dagsync
 // released on every return.
 //@ func (*Subscriber).SyncAdChain
 //@   property C01 C04 C15 C03
-//@   requires subOK(s) && ctx != nil && !held(s.expSyncMutex) && !held(s.handlersMutex)
+//@   requires subOK(s) && ctx != nil && !held(s.expSyncMutex) && !held(s.handlersMutex) && !held(s.scopedBlockHookMutex)
+//@   requires !s.expSyncClosed ==> !closed(s.inEvents)
 //@   ghost rlScoped := zero("selector.RecursionLimit")
 //@   ghost rlFirst := zero("selector.RecursionLimit")
 //@   ghost latest := zero("ipld.Link")
